@@ -33,14 +33,23 @@ def Item.tree? {α : Type} : Item α → Option (Exp α)
 section
 variable {α : Type}
 
-/-- Item-level twin of `showE` (same case structure). -/
+/-- a dedicated logic node (`and`/`or`/`xor`/`implies`/`iff` — the `Exp` variants, not `BinOp`) -/
+def isLogicVariant : Exp α → Bool
+  | .and _ | .or _ | .xor _ _ | .implies _ _ | .iff _ _ => true
+  | _ => false
+
+/-- Item-level twin of `showE` (same case structure): a `BinOp` under a parent is a group when
+`parensRule` says so, a dedicated logic node under a parent always is, everything else is an atom. -/
 def items : Option (BinOp × Bool) → Exp α → List (Item α)
   | ctx, .bin op lhs rhs =>
     let body := items (some (op, false)) lhs ++ [.infix op] ++ items (some (op, true)) rhs
     match ctx with
     | none => body
     | some (parent, isRhs) => if parensRule parent isRhs op then [.group (.bin op lhs rhs)] else body
-  | _, e => [.atom e]
+  | ctx, e =>
+    match ctx with
+    | none => [.atom e]
+    | some _ => if isLogicVariant e then [.group e] else [.atom e]
 
 /-! ### the documented grouping rules -/
 
@@ -97,13 +106,8 @@ def subDivDefect : Exp α → Bool
   | .min es | .max es | .and es | .or es => (es.map fun e => subDivDefect e).any id
   | .xor a b | .implies a b | .iff a b => subDivDefect a || subDivDefect b
 
-/-- a logic node (`and`/`or`/`xor`/`implies`/`iff` — the dedicated `Exp` variants, not `BinOp`) -/
-def isLogicVariant : Exp α → Bool
-  | .and _ | .or _ | .xor _ _ | .implies _ _ | .iff _ _ => true
-  | _ => false
-
-/-- a logic node directly under `+ - * /`: `operand_to_string` falls back to plain `Display` for it, so it is
-rendered without parentheses (`(b and d) + x` prints `b and d + x`). -/
+/-- a logic node directly under `+ - * /` (`(b and d) + x`): the shape whose parentheses `operand_to_string`
+used to drop (repaired in 5d62460); the oracle names this root cause should it ever reappear. -/
 def logicUnderArith : Exp α → Bool
   | .bin o l r =>
     ((o == .add || o == .sub || o == .mul || o == .div) && (isLogicVariant l || isLogicVariant r))
